@@ -16,8 +16,9 @@ position (`@`), and the harness maps the real "(" position to the owning directi
 Core Lean only; every function is structurally recursive (kernel-evaluable).
 -/
 import NitroVerif.Gql.Schema
+import NitroVerif.Model.IntLit
 namespace NitroVerif.CheckTs
-open NitroVerif.Gql
+open NitroVerif.Gql NitroVerif.IntLit
 
 /-- the variants of `CheckErrorMessage` reachable from `check_type_system_document` -/
 inductive ErrKind where
@@ -125,10 +126,12 @@ def isSubtype (S : Schema) : GType → GType → Option Bool
 
 /-! ### `check_value` / `is_value_compatible_type_def` with `variables = None` -/
 
-/-- the scalar arm of `is_value_compatible_type_def`: built-in scalars by name, custom scalars accept anything -/
+/-- the scalar arm of `is_value_compatible_type_def`: built-in scalars by name, custom scalars accept anything.
+    Since fix e3584a3 the `"Int"` arm accepts an `IntValue` only when `int.value.parse::<i32>().is_ok()`
+    (`Model/IntLit.lean`); `Float` and `ID` take integers of any size -/
 def scalarAccepts (name : Name) (v : Value) : Bool :=
   if name == "Boolean" then (match v with | .bool .. | .null .. => true | _ => false)
-  else if name == "Int" then (match v with | .int .. | .null .. => true | _ => false)
+  else if name == "Int" then (match v with | .int s _ => intLiteralFitsI32 s | .null .. => true | _ => false)
   else if name == "Float" then (match v with | .float .. | .int .. | .null .. => true | _ => false)
   else if name == "String" then (match v with | .str .. | .null .. => true | _ => false)
   else if name == "ID" then (match v with | .str .. | .int .. | .null .. => true | _ => false)
